@@ -267,6 +267,23 @@ CLAIMS["C08"] = dict(
                   "equivalence of lifted templates; decision tables of the gates; rule-pairing table of the casts",
     engine="symx+tablex")
 
+CLAIMS["C15"] = dict(
+    cat="other",
+    text="Decides the structure of the commitment with the hash functions as a free algebra (leaf hash = opaque "
+         "constructor of the script, branch hash = opaque commutative constructor, tweak = opaque constructor of "
+         "internal key and root): by evaluating TrSpendInfo::{nodes_from_tap_tree, from_tr, leaves}, TrSpendInfoIter::"
+         "next and BitStack128 from their typed syntax trees on every tree shape up to 5 (thorough 7) leaves and on "
+         "combs reaching depth 127 / 128 with one to three bottom pairs on either side: the root handed to the tweak is "
+         "the BIP-341 root; every leaf's control block folds from its leaf hash along its branch to that root, has "
+         "branch length = depth and the spend info's key / parity; leaves come in tree order with their own scripts; "
+         "parsing / printing (TapTreeBuilder, Display) and translate_pk keep depths and order.",
+    note="Trusted: collision freedom and the byte-level tagged hashes / tweak arithmetic of rust-bitcoin (not decided: "
+         "the design round's reason for `not applicable` still applies to that part); rustc THIR; evaluator. Bounded "
+         "family of tree shapes.",
+    tech=STATIC + "abstract evaluation of the Merkle builder and control-block iterator over a free hash algebra, "
+                  "compared with BIP-341's definition on an enumerated family of tree shapes",
+    engine="tablex")
+
 NA = {
     "C15": "commitment arithmetic over hashes with shape-dependent index arithmetic: no sound structural argument in "
            "reach decides it; structural residue (depth bounds, constructor discipline, cache coherence, order "
